@@ -103,7 +103,9 @@ def fileHeader (buf : Bytes) : Except Err (Option FileInfo) :=
   -- (Q) the extended header is selected by Size = FFFFFF alone, the large attribute is ignored
   let hr : Except Err (Option FileInfo) :=
     if size3 = 0xFFFFFF then
-      if buf.length < 32 then .error .err
+      -- repaired (fixes/C02-erased-tail-24): an erased 24-byte header with fewer than 8 bytes behind it
+      -- is the free space at the very end of the volume, not a truncated extended header
+      if buf.length < 32 then (if (buf.take 24).all (· == 0xFF) then .ok none else .error .err)
       else if rd buf 24 8 = 0xFFFFFFFFFFFFFFFF then .ok none
       else .ok (some { i0 with extSize := rd buf 24 8, dataOffset := 32 })
     else .ok (some i0)
@@ -133,7 +135,7 @@ def parseSection (h : Hooks) : Nat → Bytes → Nat → St → Except Err (Sect
         match h.codec g with
         | some c =>
           -- (Q) decodes `buf[DataOffset:]` (to the end of the file, not of the section)
-          if dataOffset > buf.length then .error .panic else
+          if dataOffset > buf.length then .error .err else  -- repaired (fix 6750af4)
           match c.decode (buf.drop dataOffset) with
           | some enc =>
             match parseEncap h fuel enc 0 0 st with
@@ -169,8 +171,7 @@ def parseEncap (h : Hooks) : Nat → Bytes → Nat → Nat → St → Except Err
       match parseSection h fuel (enc.drop offset) idx st with
       | .error e => .error e
       | .ok (s, st') =>
-        -- (Q) no zero-size check here: Go would spin forever, appending the same section
-        if s.info.extSize = 0 then .error .hang else
+                if s.info.extSize = 0 then .error .err else  -- repaired (fix 9e390db)
         match parseEncap h fuel enc (align4 (offset + s.info.extSize)) (idx + 1) st' with
         | .error e => .error e
         | .ok (ns, st'') => .ok (.sec s :: ns, st'')
